@@ -33,7 +33,7 @@ func init() {
 			{Name: "self-candidate", Run: c10Self, QuickS: 40, ThoroughS: 300},
 			{Name: "typed-cycle-orders", Run: c10Typed, QuickS: 60, ThoroughS: 600},
 			{Name: "graph-orders", Run: c10Graphs, QuickS: 60, ThoroughS: 900},
-			{Name: "percall-deviations", Run: c10Dev, QuickS: 60, ThoroughS: 900},
+			{Name: "percall-deviations", Run: c10Dev, QuickS: 90, ThoroughS: 2400},
 			{Name: "scan-schedules", Run: c10Scan, QuickS: 60, ThoroughS: 900},
 			{Name: "ordered-participants", Run: c10Ordered, QuickS: 60, ThoroughS: 600},
 			{Name: "whole-start-schedules", Run: c10Whole, QuickS: 60, ThoroughS: 900},
